@@ -104,6 +104,12 @@ def work_paths(res, om, first, n):
     core.untrack()
 
 
+def overlap_menu():
+    m = [('route', r, sp, False) for r in ('/x/new', '/x/{p}') for sp in ('GET', 'POST', 'ANY', 'PUT')]
+    m += [('rm', r, meth) for r in ('/x/new', '/x/{p}') for meth in ('GET', 'ANY')]
+    return m
+
+
 def shards(tier, seed):
     depth = 3 if tier == 'quick' else 5
     m = menu()
@@ -114,6 +120,8 @@ def shards(tier, seed):
     out += [('scoped', i, 2 if tier == 'quick' else 3) for i in range(0, len(m), 4)]
     # ... and on an application whose route hook below /x lets the application serve a request of its own first (GET /y)
     out += [('reenter', i, 2 if tier == 'quick' else 3) for i in range(0, len(m), 4)]
+    # a literal rule below a wildcard rule (one path readable by both): the literal rule is THE matching route, whatever methods it has
+    out += [('overlap', i, 3 if tier == 'quick' else 4) for i in range(len(overlap_menu()))]
     # seed extension: a third editable rule / another method joins the menu at depth 3
     out.append(('extra', seed % 3, 3))
     return out
@@ -360,6 +368,9 @@ def _work(spec):
         first = extra
     elif kind in ('scoped', 'reenter'):
         first = m[a:a + 4]
+    elif kind == 'overlap':
+        m = overlap_menu()
+        first = [m[a]]
     else:
         first = [m[a]]
 
@@ -404,6 +415,9 @@ def _work(spec):
     if kind == 'extra':
         EXTRA_RULES[:] = sorted({o[1] for o in extra} - set(RULES))
         EXTRA_PATHS[:] = [r.replace('{p}', '7') for r in EXTRA_RULES]
+    if kind == 'overlap':
+        EXTRA_RULES[:] = ['/x/new']
+        EXTRA_PATHS[:] = ['/x/new']
     # states are deduplicated by the method tables AND the concrete router object graph (hidden dispatch state counts)
     def build_k(h):
         b = Built(build(om, h))
@@ -415,7 +429,7 @@ def _work(spec):
     # ... and by the reference model's state: histories are merged only when real AND expected states agree
     s = Search(build_k, m, lambda obj: (real_key(obj[0]), _canon(obj[0].router), obj.mkey))
     s.run(depth, on_state, on_transition, first_ops=first)
-    if kind == 'extra':
+    if kind in ('extra', 'overlap'):
         EXTRA_RULES[:] = []
         EXTRA_PATHS[:] = []
     res['states'] = s.states
